@@ -149,6 +149,33 @@ Proof.
 Qed.
 Print Assumptions C27_wrapping_u64_correct.
 
+(* u256 operators are the WQxx instructions: value when it fits / divisor non-zero, VM panic otherwise *)
+Theorem C27_u256_ops_correct : forall a b,
+  u256_add default_flags a b = (if a + b <? 2 ^ 256 then Ret (a + b) else Vmp ArithmeticOverflow) /\
+  u256_sub default_flags a b = (if b <=? a then Ret (a - b) else Vmp ArithmeticOverflow) /\
+  u256_mul default_flags a b = (if a * b <? 2 ^ 256 then Ret (a * b) else Vmp ArithmeticOverflow) /\
+  u256_div default_flags a b = (if b =? 0 then Vmp ArithmeticError else Ret (a / b)) /\
+  u256_mod default_flags a b = (if b =? 0 then Vmp ArithmeticError else Ret (a mod b)).
+Proof.
+  intros a b. repeat split.
+  - apply u256_add_df.
+  - apply u256_sub_df.
+  - apply u256_mul_df.
+  - apply u256_div_df.
+  - apply u256_mod_df.
+Qed.
+Print Assumptions C27_u256_ops_correct.
+
+(* math.sw Power for u256 (model fuel 40 >= 32 loop trips; out-of-fuel excluded) *)
+Theorem C27_u256_pow_correct : forall a e, e < 2 ^ 32 ->
+  match u256_pow default_flags a e with
+  | Ret r => a ^ e < 2 ^ 256 /\ r = a ^ e
+  | Rev _ | Vmp _ => 2 ^ 256 <= a ^ e
+  | Oof => True
+  end.
+Proof. exact u256_pow_correct. Qed.
+Print Assumptions C27_u256_pow_correct.
+
 Theorem C27_u128_log2_correct : forall a, wf a ->
   if val a =? 0 then u128_log2 default_flags a = Rev FAILED_ASSERT_SIGNAL
   else exists r, u128_log2 default_flags a = Ret r /\ wf r /\
